@@ -24,7 +24,14 @@ def history (j : Json) : R Json := do
   -- the very function `history_spec` is about
   let r := MageModel.Props.C16.runHistory h0 b calls
   let unchanged := (List.range (baked.length + spare)).all (fun i => r.1.get 0 i == h0.get 0 i)
-  pure (obj [("argvs", Json.arr (r.2.map strArr).toArray), ("callerUnchanged", jbool unchanged)])
+  -- the command word is expanded by Exec like any argument, against the environment of that call
+  let cmds : List Json ← match fldOpt j "cmdWord" with
+    | none => pure []
+    | some w => do
+      let w ← w.getStr?
+      pure (calls.map fun c => jstr (expand c.env w))
+  pure (obj ([("argvs", Json.arr (r.2.map strArr).toArray), ("callerUnchanged", jbool unchanged)] ++
+    (if cmds.isEmpty then [] else [("commands", Json.arr cmds.toArray)])))
 
 def direct (j : Json) : R Json := do
   let fn ← fldStr j "fn"
